@@ -4,9 +4,14 @@
      timeout  : VL [] omitted | VL [VN 0] None | VL [VN 1; VN ms] number >= 0 | VL [VN 2; VN ms] the number -ms
      queued   : VN n ...            arrivals : VL [VN offset_ms; VN n] ...
      outcome  : VL [VN 0; VN ms] None at ms | VL [VN 1; VN n; VN ms] notification n at ms | VL [VN 2] blocks
-                | VL [VN 3] ValueError; followed by nothing.  Malformed call -> verr 1. *)
+                | VL [VN 3] ValueError; followed by nothing.  Malformed call -> verr 1.
+   run (VL [VN 2; VL labels]) -> the connect window (Model/ConnectWindow.v): replay of a trace from cinit
+     label    : VL [VN 0] CRegNotif | [1] CRegHello | [2] CStart | [3] CWDispHello | [4; n] CWDispNotif n | [5; n] CNqPut n
+                | [6] CWake | [7] CUnregHello | [8] CRet | [9; got; n] CTake | [10] CWDispOther; anything else is a label the
+                model does not have (rejected at its index)
+     outcome  : VL [VN 0; VN i] label i is not accepted | VL [VN 1; VL nq; VL taken; VL lost; VL dispatched] *)
 From Coq Require Import ZArith.
-From NC Require Import Model.Base Model.TakeNotif.
+From NC Require Import Model.Base Model.TakeNotif Model.ConnectWindow.
 
 Definition dec_block (v : val) : option (option bool) :=
   match v with
@@ -47,8 +52,35 @@ Definition enc_outcome (o : outcome) : val :=
   | RaisesValueError => VL [VN 3]
   end.
 
+Definition dec_clabel (v : val) : option clabel :=
+  match v with
+  | VL [VN 0] => Some CRegNotif
+  | VL [VN 1] => Some CRegHello
+  | VL [VN 2] => Some CStart
+  | VL [VN 3] => Some CWDispHello
+  | VL [VN 4; VN n] => Some (CWDispNotif n)
+  | VL [VN 5; VN n] => Some (CNqPut n)
+  | VL [VN 6] => Some CWake
+  | VL [VN 7] => Some CUnregHello
+  | VL [VN 8] => Some CRet
+  | VL [VN 9; VN g; VN n] => Some (CTake (negb (N.eqb g 0)) n)
+  | VL [VN 10] => Some CWDispOther
+  | _ => None
+  end.
+
+(* replay from state s; i = index of the label at the head *)
+Fixpoint crun_vals (s : cst) (ls : list val) (i : N) : val :=
+  match ls with
+  | [] => VL [VN 1; VL (map VN (c_nq s)); VL (map VN (c_taken s)); VL (map VN (c_lost s)); VL (map VN (c_disp s))]
+  | v :: r => match dec_clabel v with
+              | Some l => match cstep s l with Some s' => crun_vals s' r (i + 1) | None => VL [VN 0; VN i] end
+              | None => VL [VN 0; VN i]
+              end
+  end.
+
 Definition run (v : val) : val :=
   match v with
+  | VL [VN 2; VL labels] => crun_vals cinit labels 0
   | VL [VN 1; b; t; VL q; VL arr] =>
       match dec_block b, dec_tmo t, dec_ns q, dec_arr arr with
       | Some ob, Some ot, Some q', Some arr' => enc_outcome (manager_call ob ot (mkenv q' arr'))
